@@ -307,8 +307,8 @@ def exec_while(eng, s, fr):
                 return
         raise Unsupported("unroll bound exceeded")
     pre = f"{_fn_label(eng, fr)}/loop{o}"
-    if _yield_sink(fr, s.body) is not None:
-        raise Unsupported(f"while loop #{o} in {_fn_label(eng, fr)} yields inside an invariant-cut loop")
+    if _yield_sink(fr, s.body) is not None and not _yield_described(spec):
+        raise Unsupported(f"while loop #{o} in {_fn_label(eng, fr)} yields inside an invariant-cut loop whose contract does not describe `__yield__`")
     old_vars = eng.old_vars_of(fr)
     entry_vars = snapshot(_visible(fr))
     check_invs(eng, spec, fr, old_vars, entry_vars, pre, "entry")
@@ -361,6 +361,12 @@ class LoopYields:
         return f"LoopYields<loop{self.ordinal} x {self.count}>"
 
 
+def _yield_described(spec):
+    """style 2 of handling yields in a cut loop: the loop contract treats the generator's output list `__yield__` as
+    loop state (promoted by `types`, or listed in `modifies`) and describes it in its invariants"""
+    return "__yield__" in (spec.get("types") or {}) or "__yield__" in (spec.get("modifies") or [])
+
+
 def _yield_sink(fr, body):
     """the enclosing generator's output list if the loop body yields, else None"""
     if not any(isinstance(x, (ast.Yield, ast.YieldFrom)) for x in _walk_no_defs(body)):
@@ -409,11 +415,13 @@ def exec_for(eng, s, fr):
     # contract's `yields` clauses [(label, fn(E, vars, new_items, k) -> Bool)]; without them the output would
     # silently lose the loop's yields on the exit path, so that is refused
     sink = _yield_sink(fr, s.body)
+    if sink is not None and _yield_described(spec):
+        sink = None  # the invariants speak about `__yield__` themselves
     if sink is not None and not spec.get("yields"):
         raise Unsupported(f"for loop #{o} in {_fn_label(eng, fr)} yields inside an invariant-cut loop: give `yields` clauses in the loop contract")
     if eng.branch(eng.sbool(k.z < nz)):
         eng.assign(s.target, getter(k), fr)
-        m0 = len(sink) if sink is not None else 0
+        m0 = len(sink.items) if sink is not None else 0
         try:
             eng.exec_block(s.body, fr)
         except ContinueSig:
@@ -424,12 +432,12 @@ def exec_for(eng, s, fr):
             return
         if sink is not None:
             for lab, fn in spec["yields"]:
-                eng.prove(f"{pre}/yields/{lab}", fn(eng, _visible(fr), list(sink[m0:]), k), "yields")
+                eng.prove(f"{pre}/yields/{lab}", fn(eng, _visible(fr), list(sink.items[m0:]), k), "yields")
         fr.vars[kname] = eng.snum(k.z + 1, "int")
         check_invs(eng, spec, fr, old_vars, entry_vars, pre, "preserved")
         raise PathEnd()
     if sink is not None:
-        sink.append(LoopYields(o, n, [lab for lab, _ in spec["yields"]]))
+        sink.items.append(LoopYields(o, n, [lab for lab, _ in spec["yields"]]))
     if isinstance(seqv, Iter):
         seqv.consumed = True
     eng.exec_block(s.orelse, fr)
